@@ -112,7 +112,11 @@ func checkC16(r *Run) {
 		vs, known := evalC16(n, parser)
 		c.st.Evals++
 		c.st.Transitions += 2
+		if !known {
+			c.st.Outcomes["other"]++
+		}
 		if known {
+			c.st.Outcomes["table-name"]++
 			c.st.Nontrivial++
 			c.st.States++
 		}
@@ -179,9 +183,21 @@ func checkC16(r *Run) {
 		}
 		r.St.Evals++
 	}
-	// longer names: table names with suffix/prefix, doubled
+	// longer / shorter names: table names with suffixes and prefixes of 1..8 bytes (hash buckets depend on the length
+	// modulo 4 and on the first byte), every proper prefix and suffix, doubled
 	for _, n := range names {
-		for _, x := range [][]byte{append(append([]byte(nil), n...), n...), append([]byte("x-"), n...), append(append([]byte(nil), n...), '-')} {
+		var xs [][]byte
+		for l := 1; l <= 8; l++ {
+			for _, f := range []byte("a-Z9") {
+				pad := bytes.Repeat([]byte{f}, l)
+				xs = append(xs, append(append([]byte(nil), n...), pad...), append(append([]byte(nil), pad...), n...))
+			}
+		}
+		for k := 1; k < len(n); k++ {
+			xs = append(xs, n[:k], n[k:])
+		}
+		xs = append(xs, append(append([]byte(nil), n...), n...), append([]byte("x-"), n...), append(append([]byte(nil), n...), '-'))
+		for _, x := range xs {
 			vs, _ := evalC16(x, true)
 			r.St.Evals++
 			for _, v := range vs {
